@@ -48,6 +48,10 @@ func options() ggen.Options {
 		// widened after seed C14-r3: subjects that git and the hosting services write (merge subjects, Revert,
 		// fixup!, ..) on commits of every kind, and squash commits that take over the side branch
 		ToolSubjects: true, SquashMerges: true,
+		// widened after seed C14-r4: blanks at the END of a log line (path components that end with blanks or
+		// consist of blanks, twins that differ from another path only by such blanks), runs of blanks inside a
+		// component, and commits without a message (the commit line then ends with the blank after the date)
+		TrailingBlankPaths: true, BlankRunPaths: true, EmptySubjects: true,
 	}
 }
 
@@ -391,9 +395,9 @@ func checkSeq(c SeqCase) pbt.Verdict {
 
 func init() {
 	pbt.SetProperty("C14")
-	pbt.Describe("rapid-generated operation lists: 1-12 commits by 1-6 authors (names with spaces, digits, non-ASCII, inner punctuation such as dependabot[bot] or Jean-Luc O'Neil), up to 5 live files per branch plus, now and then, an import of 9-24 files in one commit; per commit 1-5 operations (add text/binary file, plain or executable, of 1-12 or of 100-1400 lines, modify = drop/insert lines and/or flip the executable bit, delete, rename: other name / other directory / to the root / one directory up / down / first or inner directory component replaced / directory put in front, unchanged, lightly edited or rewritten so that git shows delete+create); paths with blanks (also at the beginning of a component or of the whole path), nested directories, number-then-blank components, names that are a prefix or a suffix of another name (f.txt / f.txt.orig / xf.txt), re-creation of deleted paths; empty commits, a side branch that ends in a merge commit (clean by construction), in a squash commit (one parent, the side branch's net change as its diff, as after `git merge --squash`; the side commits stay unreachable) or is left unmerged; subjects from a token grammar (words, conventional prefixes with/without scope, [text], [hex], bare hex words, ->, =>, other dates, the commit's own date, the author's name, colons, quotes, non-ASCII) and, on commits of every kind (ordinary, empty, squash, side branch, first, last, true merge), the subjects git and the hosting services write: Merge branch 'b' [of url] [into c], Merge branches 'b' and 'c', Merge tag 't', Merge commit '<hex>', Merge pull request #n from user/b, Merge remote-tracking branch 'origin/b', Merge <hex> into <hex>, Merged in b (pull request #n), Merged PR n: text, and Revert \"s\", Reapply \"s\", Revert \"Revert \"s\"\", fixup! / squash! / amend! s, Squashed commit of the following:, Initial commit, WIP on b: <hex> s, index on b: <hex> s, Bump pkg from 1.2.3 to 1.2.4, Create / Update / Delete / Rename <file>, Release v1.2.3, s (#n), Cherry-pick <hex>: s, where s is the subject of an earlier commit of the history or plain words (a true merge otherwise carries Merge branch 'side' or a grammar subject; the subject never decides whether a commit is a merge: its parents do); author dates in four time zones. The operation list is simulated (file trees with globally unique lines, tree diff, git's rename pairing and similarity estimate, git's rename notation) which yields both the expected commit list and the emulated log text. 'cli' cases build the repository with real git (git commit with GIT_AUTHOR_*/GIT_COMMITTER_* fixed), validate simulation and emulator against it (git diff-tree --numstat -M per commit, rev-list, ls-tree, git log byte for byte), run the built `coca git` inside it and read coca_reporter/commits.json, and feed the real log text to BuildMessageByInput; 'emu' cases feed emulated log text to BuildMessageByInput, with abbreviated hashes of 7-16 or of 40 digits; 'seq' cases parse the emulated logs of two histories (which now and then carry the same hashes) as A, B, A in one process without the reset hook in between: every call must give its own log's commits, and a list handed out by an earlier call must still read the same after later calls. Expected: in log order one entry per reachable non-merge commit with at least one changed path, with hash, author, date, subject as printed, and the multiset of (path as printed by numstat, added, deleted, create/delete/\"\" mode), binary = 0/0. Non-trivial = at least 2 commits with changes and at least one of: rename, delete, binary file, path with a blank, subject with a special token (a merge-like or other tool-written subject on a non-merge commit counts as one); distinct = hash of the operation list.",
-		"paths consist of letters, digits, '.', '_', '-' and blanks (nothing git would C-quote); files are regular files with mode 100644 or 100755 (no symlinks, no submodules); a rename never changes the mode",
-		"author names contain no date-shaped token; punctuation (- ' . [ ] ( ) @) only inside the name, where git keeps it; subjects are single-line, non-empty, without leading/trailing blanks or tabs",
+	pbt.Describe("rapid-generated operation lists: 1-12 commits by 1-6 authors (names with spaces, digits, non-ASCII, inner punctuation such as dependabot[bot] or Jean-Luc O'Neil), up to 5 live files per branch plus, now and then, an import of 9-24 files in one commit; per commit 1-5 operations (add text/binary file, plain or executable, of 1-12 or of 100-1400 lines, modify = drop/insert lines and/or flip the executable bit, delete, rename: other name / other directory / to the root / one directory up / down / first or inner directory component replaced / directory put in front, unchanged, lightly edited or rewritten so that git shows delete+create); paths with blanks (also at the beginning of a component or of the whole path; since seed C14-r4 also at the END of a component or of the whole path, one or two of them: `notes `, `old /keep `, `g.txt  `, at both ends: ` x `, file names of one or two blanks and directory names of three blanks: ` `, `  `, `a/   /f.txt`, runs of two blanks inside a component: `two  blanks.md`, `d  ir`, and twins = a new path that differs from a path of the tree, possibly one touched by the same commit, only by blanks appended to one of its components: `f.txt` next to `f.txt `, `a/b/f.txt` next to `a /b/f.txt`; such names are also rename sources and targets and replaced directory components), nested directories, number-then-blank components, names that are a prefix or a suffix of another name (f.txt / f.txt.orig / xf.txt), re-creation of deleted paths; empty commits, a side branch that ends in a merge commit (clean by construction), in a squash commit (one parent, the side branch's net change as its diff, as after `git merge --squash`; the side commits stay unreachable) or is left unmerged; subjects from a token grammar (words, conventional prefixes with/without scope, [text], [hex], bare hex words, ->, =>, other dates, the commit's own date, the author's name, colons, quotes, non-ASCII) and, on commits of every kind (ordinary, empty, squash, side branch, first, last, true merge), the subjects git and the hosting services write: Merge branch 'b' [of url] [into c], Merge branches 'b' and 'c', Merge tag 't', Merge commit '<hex>', Merge pull request #n from user/b, Merge remote-tracking branch 'origin/b', Merge <hex> into <hex>, Merged in b (pull request #n), Merged PR n: text, and Revert \"s\", Reapply \"s\", Revert \"Revert \"s\"\", fixup! / squash! / amend! s, Squashed commit of the following:, Initial commit, WIP on b: <hex> s, index on b: <hex> s, Bump pkg from 1.2.3 to 1.2.4, Create / Update / Delete / Rename <file>, Release v1.2.3, s (#n), Cherry-pick <hex>: s, where s is the subject of an earlier commit of the history or plain words (a true merge otherwise carries Merge branch 'side' or a grammar subject; the subject never decides whether a commit is a merge: its parents do); now and then a commit of any kind has no message at all (git commit --allow-empty-message: %s is empty, the commit line ends with the blank after the date); author dates in four time zones. The operation list is simulated (file trees with globally unique lines, tree diff, git's rename pairing and similarity estimate, git's rename notation) which yields both the expected commit list and the emulated log text. 'cli' cases build the repository with real git (git commit with GIT_AUTHOR_*/GIT_COMMITTER_* fixed), validate simulation and emulator against it (git diff-tree --numstat -M per commit, rev-list, ls-tree, git log byte for byte), run the built `coca git` inside it and read coca_reporter/commits.json, and feed the real log text to BuildMessageByInput; 'emu' cases feed emulated log text to BuildMessageByInput, with abbreviated hashes of 7-16 or of 40 digits; 'seq' cases parse the emulated logs of two histories (which now and then carry the same hashes) as A, B, A in one process without the reset hook in between: every call must give its own log's commits, and a list handed out by an earlier call must still read the same after later calls. Expected: in log order one entry per reachable non-merge commit with at least one changed path, with hash, author, date, subject as printed, and the multiset of (path as printed by numstat, added, deleted, create/delete/\"\" mode), binary = 0/0. Non-trivial = at least 2 commits with changes and at least one of: rename, delete, binary file, path with a blank, subject with a special token (a merge-like or other tool-written subject on a non-merge commit counts as one); distinct = hash of the operation list.",
+		"paths consist of letters, digits, '.', '_', '-' and blanks (U+0020, anywhere in a component, also as its only characters) and nothing git would C-quote (no tab, CR or other control character, no non-ASCII white space); files are regular files with mode 100644 or 100755 (no symlinks, no submodules); a rename never changes the mode",
+		"author names contain no date-shaped token; punctuation (- ' . [ ] ( ) @) only inside the name, where git keeps it; subjects are single-line, without leading/trailing blanks or tabs (git strips them from %s), either empty or beginning with a non-blank",
 		"every pairing of a deleted with an added file is unambiguous by construction (all lines globally unique, added files never empty), so git's rename detection has exactly one possible result, which the simulation reproduces with git's span-hash similarity estimate; this is checked against real git in every 'cli' case, in a start-up self-test, and for every failing 'emu' case before it is reported",
 		"committer dates increase with the commit index, so the log order is the creation order of the reachable commits",
 		"`coca git` and all harness git calls run with HOME pointing to an empty directory and system/global git configuration disabled")
